@@ -69,7 +69,7 @@ func (g *exprGen) floatLit() string {
 	case 1:
 		return "-" + strconv.Itoa(g.r.Intn(9)) + ".5"
 	case 2:
-		return strconv.Itoa(1+g.r.Intn(9)) + "e" + strconv.Itoa(g.r.Intn(5))
+		return strconv.Itoa(1+g.r.Intn(9)) + g.pick("e", "e", "e+") + strconv.Itoa(g.r.Intn(5))
 	case 3:
 		return strconv.Itoa(1+g.r.Intn(9)) + ".25e-" + strconv.Itoa(g.r.Intn(3))
 	case 4:
